@@ -251,7 +251,7 @@ func RunSession(s Session) mon.Result {
 		bad := func(v verdict) mon.Result {
 			return mon.Result{Verdict: mon.Violated, Key: v.key,
 				Detail: fmt.Sprintf("operation %d (%s, stop=%v, strip=%v, driver list %q, operation list given=%v %q, marks %s): %s",
-					oi, o.API, o.Stop, o.Strip, s.DL, o.OLGiven, o.OL, marks(o), v.detail) + fmt.Sprintf(" [option order %v: %s; repeat %q]", names, OptShape(names), o.Repeat),
+					oi, o.API, o.Stop, o.Strip, s.DL, o.OLGiven, o.OL, marks(o), v.detail) + fmt.Sprintf(" [option order %v: %s; repeat %q; long %q]", names, OptShape(names), o.Repeat, o.Long),
 				Events: tail(conn.Log(), 60), NonTrivial: true, Obs: obs}
 		}
 		if cerr != nil {
@@ -359,6 +359,28 @@ func RunSession(s Session) mon.Result {
 		}
 		obs["control_same_text_different_output_pairs"] += sameTextOtherOut
 		obs["control_same_output_different_text_failed_pairs"] += sameOutOtherText
+		for i := 0; i < n; i++ {
+			if l := len(cmds[i]); l > 4096 {
+				bucket := "4097-8192"
+				switch {
+				case l > 16384:
+					bucket = "16385-65000"
+				case l > 8192:
+					bucket = "8193-16384"
+				}
+				if strings.HasSuffix(o.API, "file") {
+					obs["fromfile_lines_over_4096_bytes"]++
+					obs["fromfile_lines_over_4096_bytes:"+bucket]++
+					obs["fromfile_lines_over_4096_bytes:api_"+o.API]++
+					if i < sent {
+						obs["fromfile_long_line_received_whole_by_device"]++
+					}
+					tag("fromfile_long_line=%s", bucket)
+				} else {
+					obs["control_long_command_in_non_file_api"]++
+				}
+			}
+		}
 		shape := OptShape(names)
 		obs["option_order:"+shape]++
 		tag("option_order=%s", shape)
@@ -543,7 +565,7 @@ func judge(s *Session, o *Op, out outcome, cmds, refs []string, fails []bool, se
 			return &verdict{"c13/device-received-extra-line:api=" + o.API, fmt.Sprintf("device received %q after the last command", g)}
 		}
 		if g != cmds[i] {
-			return &verdict{"c13/device-received-other-line:api=" + o.API, fmt.Sprintf("line %d received by the device is %q, command was %q", i, g, cmds[i])}
+			return &verdict{"c13/device-received-other-line:api=" + o.API, fmt.Sprintf("line %d received by the device is %q (%d bytes), command was %q (%d bytes)", i, clip(g), len(g), clip(cmds[i]), len(cmds[i]))}
 		}
 	}
 	if len(got) < sent {
@@ -755,6 +777,8 @@ func init() {
 			"observed shapes counted as generic-only / generic-first / generic-after-foreign / interleaved. " +
 			"About a third of the lists of length >=2 carry a repetition overlay: a command copied to 1-3 other positions (adjacent or apart) with byte-identical output " +
 			"(identical failed members; the aggregate is compared by position and pointer identity, not by value), or as controls the same text with differing outputs / differing texts with identical output. " +
+			"About 1/8 of the from-file operations (1/40 of the others, as a control) contain one command line of 4097-65000 bytes (boundary 4097-4099, two, three/four and many 4096-byte buffers; " +
+			"short ones only where reads are tiny), which must reach the device as one line. " +
 			"Decoys: unlisted string, driver-level string while an operation-level list overrides it, string of another operation's list, string only in the echoed command, " +
 			"case variant, string broken by a newline, proper prefix. Placement first/middle/last line x start/mid/end/whole line, optionally broken by an escape sequence or CR, several per output. " +
 			"Non-trivial = a session in which at least one returned member failed per the reference (a failure string in force is present in some output). Distinct = distinct descriptor hash.",
@@ -765,6 +789,7 @@ func init() {
 			"every command ends in a byte from a reserved set that occurs nowhere else (commands, outputs, prompts, failure strings)",
 			"failure strings are non-empty; an empty operation-level list (nil or empty slice) falls back to the driver-level list (pinned behaviour)",
 			"escape sequences only from a fixed SGR/erase family and only when the transport read size can hold them; outputs shorter than the prompt search depth",
+			"command-file lines stay below 65536 bytes (bufio.Scanner's token limit: the pinned loader silently drops such a line and all following ones; reported to the coordinator, not generated); the echo of a long command fits the channel's window max(search depth, 2*len(command))",
 			"lines the device receives that are empty (prompt look-ups) or the privilege commands are not counted as commands",
 		},
 		Exhaustive:  func(string) bool { return false },
